@@ -273,42 +273,49 @@ def linked_collapse(ctx, rule='A5l'):
                 isinstance(e.value, ast.Name):
             return e.value.id
         return None
-    pos_names = set()
-    for a_ in fstores:
-        idx = a_.targets[0].slice
-        nm = tail_of(idx)
-        if nm is None and isinstance(idx, ast.Name):
-            for lp in ast.walk(fn.node):
-                if isinstance(lp, ast.For) and isinstance(lp.target, ast.Name) and lp.target.id == idx.id:
-                    nm = tail_of(lp.iter)
-        pos_names.add(nm)
-
-    def definition(name):
-        ds = [a_.value for a_ in walk_fn(fn) if isinstance(a_, ast.Assign) and norm(a_.targets[0]) == name]
+    def resolve(e, f, depth=3):
+        """Definitions of an expression: names bound by a loop over a private generator helper are replaced by what
+        the helper yields at that position, single-assignment names by their value (in the function they belong to)."""
+        if not isinstance(e, ast.Name) or depth == 0:
+            return [(e, f)]
+        ds = [a_.value for a_ in walk_fn(f) if isinstance(a_, ast.Assign) and norm(a_.targets[0]) == e.id]
         if ds:
-            return ds
-        # bound by a loop over a private generator helper: the yielded element at that position
-        for lp in ast.walk(fn.node):
-            if isinstance(lp, ast.For) and isinstance(lp.target, ast.Tuple) and isinstance(lp.iter, ast.Call):
-                names = [norm(e) for e in lp.target.elts]
+            return [x for d in ds for x in resolve(d, f, depth - 1)]
+        for lp in ast.walk(f.node):
+            if not isinstance(lp, ast.For):
+                continue
+            if isinstance(lp.target, ast.Name) and lp.target.id == e.id:
+                # `for i in <positions>[1:]` / `for i in <name>`
+                return [('elem', x, g) for x, g in resolve(lp.iter, f, depth - 1)]
+            if isinstance(lp.target, ast.Tuple) and isinstance(lp.iter, ast.Call):
+                names = [norm(t_) for t_ in lp.target.elts]
                 h = next((u for u in unit[1:] if u.name == call_name(lp.iter)), None)
-                if name in names and h is not None:
-                    k = names.index(name)
+                if e.id in names and h is not None:
+                    k = names.index(e.id)
                     out = []
                     for y in ast.walk(h.node):
                         if isinstance(y, ast.Yield) and isinstance(y.value, ast.Tuple) and len(y.value.elts) > k:
-                            e = y.value.elts[k]
-                            if isinstance(e, ast.Name):
-                                out += [a_.value for a_ in walk_fn(h) if isinstance(a_, ast.Assign) and
-                                        norm(a_.targets[0]) == e.id]
-                            else:
-                                out.append(e)
+                            out += resolve(y.value.elts[k], h, depth - 1)
                     return out
-        return []
-    ok = bool(fstores) and None not in pos_names and 'ChoiceConstraintType.LINKED' in txt
-    for nm in pos_names:
-        ds = definition(nm) if nm else []
-        ok = ok and bool(ds) and all(isinstance(d, ast.Call) and call_name(d) == 'sorted' for d in ds)
+        return [(e, f)]
+
+    def is_sorted_positions(x, f):
+        return all(isinstance(d, ast.Call) and call_name(d) == 'sorted' for d, _ in resolve(x, f)) if \
+            isinstance(x, ast.Name) else (isinstance(x, ast.Call) and call_name(x) == 'sorted')
+    ok = bool(fstores) and 'ChoiceConstraintType.LINKED' in txt
+    for a_ in fstores:
+        idx = a_.targets[0].slice
+        good = False
+        for r in resolve(idx, fn):
+            # the index is `<positions>[1:]`, or an element of a loop over it
+            e_, f_ = (r[1], r[2]) if r[0] == 'elem' else r
+            if isinstance(e_, ast.Subscript) and tail_of(e_) is not None:
+                good = is_sorted_positions(e_.value, f_)
+            else:
+                good = False
+            if not good:
+                break
+        ok = ok and good
     ctx.ob(rule, fkey(fn, rule, 'linked-all-but-first-forced'), ok, fn.where,
            'for a LINKED constraint every choice but the first (in choice order) is forced, i.e. exactly one '
            'design variable represents the linked group', '')
